@@ -68,6 +68,12 @@ func c07BuildExpr(b *c07Built, w *c07WF, rr *Rand, sh c07Shift, cat *c07Catalogu
 		if nc && (strings.Contains(ee.text(), "github") || ee.class == "template") {
 			continue
 		}
+		if strings.Contains(st.name, "filter+expr") && strings.ContainsAny(ee.text(), "[]") {
+			continue // a bracket in the expression text is a glob diagnostic of its own in a filter pattern
+		}
+		if st.tight && (strings.Contains(ee.text(), " ") || ee.class == "template" || ee.class == "lexer-eof") {
+			continue // nothing but the expression itself may add blanks (each one is a diagnostic of its own there)
+		}
 		for _, md := range st.modes {
 			if ee.class == "template" && md != "emb" {
 				continue
@@ -99,6 +105,18 @@ func c07BuildExpr(b *c07Built, w *c07WF, rr *Rand, sh c07Shift, cat *c07Catalogu
 			fits = bare
 		}
 	}
+	if (pick>>8)%5 == 0 {
+		// a fixed share for the sites that hold two constructs of different rules in one scalar
+		var pairs []sm
+		for _, f := range fits {
+			if f.site.decoMsg != "" {
+				pairs = append(pairs, f)
+			}
+		}
+		if len(pairs) > 0 {
+			fits = pairs
+		}
+	}
 	site, mode := fits[pick%len(fits)].site, fits[pick%len(fits)].mode
 	noctx := c07HasTag(site.tags, "nocontext")
 	wr := c07Wrapper{}
@@ -121,10 +139,26 @@ func c07BuildExpr(b *c07Built, w *c07WF, rr *Rand, sh c07Shift, cat *c07Catalogu
 			}
 		}
 	}
+	if site.tight {
+		wr = c07Wrapper{}
+	}
 	ws1 := rr.Intn(4)
 	ws2 := rr.Intn(3)
 	if rr.Intn(3) != 0 {
 		ws1, ws2 = 1, 1
+	}
+	// blanks inside the quotes before / after everything else (0-6)
+	lead, trail := 0, 0
+	if rr.Intn(3) == 0 {
+		lead = rr.Range(1, 6)
+	}
+	if rr.Intn(4) == 0 {
+		trail = rr.Range(1, 4)
+	}
+	if site.noInner {
+		lead, trail = 0, 0
+	} else if sh.kind == "innerspace" {
+		lead += sh.k
 	}
 	nText0 := rr.Intn(41)
 	if rr.Intn(3) == 0 {
@@ -137,6 +171,9 @@ func c07BuildExpr(b *c07Built, w *c07WF, rr *Rand, sh c07Shift, cat *c07Catalogu
 	nTrail := rr.Intn(8)
 	if rr.Intn(2) == 0 {
 		nTrail = 0
+	}
+	if site.tight {
+		ws1, ws2, nText0, nPh, nTrail = 0, 0, 0, 0, 0
 	}
 	textSub, phSub, trailSub := rr.Sub(11), rr.Sub(12), rr.Sub(13)
 	exprText := wr.pre + ee.pre + ee.bad + ee.post + wr.post
@@ -197,7 +234,9 @@ func c07BuildExpr(b *c07Built, w *c07WF, rr *Rand, sh c07Shift, cat *c07Catalogu
 		if ee.class == "template" {
 			off = phOff
 		}
-		b.shifts = append(b.shifts, "pretext", "placeholder")
+		if !site.tight {
+			b.shifts = append(b.shifts, "pretext", "placeholder")
+		}
 	case "whole":
 		val = "${{" + c07Spaces(ws1) + exprText + c07Spaces(ws2) + "}}"
 		off = 3 + ws1 + anchorInExpr
@@ -231,12 +270,20 @@ func c07BuildExpr(b *c07Built, w *c07WF, rr *Rand, sh c07Shift, cat *c07Catalogu
 		b.info["text"] = len(pre)
 		b.shifts = append(b.shifts, "pretext")
 	}
-	// plain scalars must not end with a blank: lexer-eof and friends never do; ") " does
-	if strings.HasSuffix(val, " ") {
-		val = strings.TrimRight(val, " ")
-		if off > len(val) {
-			off = len(val)
-		}
+	// blanks inside the quotes around the whole text (a scalar that starts or ends with a blank can
+	// only be written quoted; the style is chosen accordingly)
+	if lead > 0 || trail > 0 {
+		val = c07Spaces(lead) + val + c07Spaces(trail)
+		off += lead
+	}
+	b.info["lead"] = lead
+	if !site.noInner {
+		b.shifts = append(b.shifts, "innerspace")
+	}
+	// a second construct, diagnosed by ANOTHER rule, in the same scalar
+	if site.decoPre != "" || site.decoPost != "" {
+		val = site.decoPre + val + site.decoPost
+		off += len(site.decoPre)
 	}
 	t := c07S(val)
 	site.place(w, t)
@@ -257,6 +304,18 @@ func c07BuildExpr(b *c07Built, w *c07WF, rr *Rand, sh c07Shift, cat *c07Catalogu
 	if ee.sub != "" {
 		b.info["sub:"+ee.class+":"+ee.sub] = 1
 	}
+	if site.decoMsg != "" {
+		if site.decoOff < 0 {
+			b.expects = append(b.expects, c07Expect{msg: site.decoMsg, anchor: 'n', abs: true})
+		} else {
+			o := site.decoOff
+			if site.decoPre == "" {
+				o += len(val) - len(site.decoPost)
+			}
+			b.expects = append(b.expects, c07Expect{msg: site.decoMsg, anchor: 't', off: o, abs: true})
+		}
+		b.info["pair:"+site.name] = 1
+	}
 	for _, m := range []string{"type of expression", "\"if\" condition should be type", "default value of input"} {
 		b.expects = append(b.expects, c07Expect{msg: m, anchor: 'n', abs: true, optional: true})
 	}
@@ -271,7 +330,8 @@ func c07BuildExpr(b *c07Built, w *c07WF, rr *Rand, sh c07Shift, cat *c07Catalogu
 func (s *c07ExprSite) flowable() bool {
 	switch s.name {
 	case "wf.name", "wf.run-name", "wf.concurrency", "job.name", "job.runs-on", "job.environment", "job.container", "job.timeout-minutes", "job.continue-on-error",
-		"job.if", "job.if-bare", "step.if", "step.if-bare", "step.if-bare-uses", "step.name", "step.run", "step.working-directory", "step.timeout-minutes", "step.continue-on-error":
+		"job.if", "job.if-bare", "step.if", "step.if-bare", "step.if-bare-uses", "step.name", "step.run", "step.working-directory", "step.timeout-minutes", "step.continue-on-error",
+		"wf.env-expr", "job.env-expr", "step.env-expr", "matrix.include-expr", "matrix.exclude-expr", "pair.deprecated-command+expr", "pair.expr+deprecated-command", "pair.if-extra-characters+expr", "pair.job-if-extra-characters+expr", "pair.branch-filter+expr":
 		return false // the holder is a job / step / the workflow: too large for one line
 	}
 	return true
